@@ -640,8 +640,8 @@ func ruleInPlaceWrites(c *Ctx) {
 			allInstrs(f, func(in ssa.Instruction) {
 				switch x := in.(type) {
 				case *ssa.Store:
-					if ia, ok := x.Addr.(*ssa.IndexAddr); ok && newOrig(f).of(ia.X).hasParam(0) {
-						writes = true
+					if ia, ok := x.Addr.(*ssa.IndexAddr); ok && (newOrig(f).of(ia.X).hasParam(0) || (f != fn && types.Identical(ia.X.Type(), p.Type()))) {
+						writes = true // (in a closure — a range-over-func body — the captured slice is recognised by its type)
 					}
 				case *ssa.Call:
 					for _, a := range x.Call.Args {
